@@ -10,6 +10,13 @@ TRUST = ("Trusted base: the Go type checker and go/ssa (x/tools v0.29.0) as a fa
 
 # id -> (technique, level text, level_note, design_ref)
 CLAIMED = {
+    "C03": (
+        "per-instruction write footprints (interprocedural effect analysis through the OCI generator's source) + decoded guard sets from CFG edge dominance + access-path argument origins + field-map tables",
+        "Decides the translation table behind Apply for all paths: which OCI sections each instruction can write, under exactly which decoded conditions, fed from which edit fields; the four toOCI field maps; "
+        "hook stage dispatch against validHookNames and oci.Hooks' JSON names; uid/gid defaults; cgroup rule (b/c, rwm default); remove-before-add and stable strict depth sort for mounts; GID != 0; RDT replacement; "
+        "and that the union of footprints stays inside the documented sections (nothing else changes). Structural necessary conditions for every OCI spec and edit list; not the behavioural postcondition.",
+        TRUST + "The OCI generator is trusted to behave as its source (only its write effects are read). Does not decide env replace-by-name, RemoveMount's first-match semantics, lstat results.",
+        "DESIGN.md §4 C03"),
     "C02": (
         "CFG path queries + access-path origin analysis of InjectDevices and Append on go/ssa",
         "Decides, for all paths of InjectDevices and Append, the structural skeleton of 'ordered composition': complete in-order request loop, verbatim lookup, "
